@@ -39,5 +39,10 @@ TInit == Init /\ l = 1
 TNext == TReset \/ TAdd \/ TFind \/ TFindMaxFormat \/ TFindPredefined \/ TFindTrusted \/ TFindMany \/ TFindSequence
 TSpec == TInit /\ [][TNext]_tvars
 
+(* the C19 action properties on the recorded steps (Reset starts a fresh database) *)
+TRevisionsOnlyGrow == [][Trace[l].ev # "Reset" =>
+                            \A id \in StorableIds : CurRev(db', id, MaxSupp(id)) >= CurRev(db, id, MaxSupp(id))]_tvars
+TRefusedChangeNothing == [][(Trace[l].ev # "Reset" /\ (last'.op # "Add" \/ last'.res.r # "ok")) => db' = db]_tvars
+
 Accepted == TLCGet("stats").diameter - 1 = Len(Trace)
 =============================================================================
